@@ -157,6 +157,7 @@ func GenEngineScript(r *Rng, o EngineGenOpts, hist map[string]int) []string {
 	}
 	nops := o.Ops/2 + r.Intn(o.Ops)
 	backupN := 0
+	bigFileDone, prefixNameDone := false, false
 	var backups []string
 	inspect := func() {
 		add("dump")
@@ -333,8 +334,20 @@ func GenEngineScript(r *Rng, o EngineGenOpts, hist map[string]int) []string {
 				add("put %s %s", engKeys[r.Intn(len(engKeys))], r.PickS("00", "ab0000", "0000000000", "6100"))
 				hist["val_trailing_zeros"]++
 			}
+			if c.fsize == 1<<20 && !bigFileDone && r.Chance(1, 2) {
+				// a data file larger than 1 MiB (a record larger than the file limit gets a file of its own)
+				bigFileDone = true
+				add("put 6b32 @%d:%d", 1<<20+3000+r.Intn(90000), r.Intn(99999))
+				hist["backup_of_file_over_1MiB"]++
+			}
 			backupN++
 			name := fmt.Sprintf("bk%d", backupN)
+			if !prefixNameDone && r.Chance(1, 5) {
+				// the backup directory's name is a proper prefix of the data directory's name ("d" / "db")
+				prefixNameDone = true
+				name = "d"
+				hist["backup_dir_name_prefix_of_source"]++
+			}
 			backups = append(backups, name)
 			add("backup %s", name)
 			hist["op_backup"]++
@@ -396,6 +409,7 @@ func GenEngineScript(r *Rng, o EngineGenOpts, hist map[string]int) []string {
 func GenBackupCycle(r *Rng, o EngineGenOpts, hist map[string]int) []string {
 	var out []string
 	add := func(format string, a ...interface{}) { out = append(out, "E "+fmt.Sprintf(format, a...)) }
+	bk := r.PickS("bk", "bk", "bk", "d")
 	c := genCfg(r, o, hist)
 	c.fsize = r.Pick(200, 700)
 	vlen := r.Pick(10, 20, 33)
@@ -413,7 +427,7 @@ func GenBackupCycle(r *Rng, o EngineGenOpts, hist map[string]int) []string {
 		}
 	}
 	add("files")
-	add("backup bk")
+	add("backup %s", bk)
 	victim := r.Intn(groups)
 	if r.Chance(1, 4) {
 		// the source is emptied completely: the refreshed backup must open to the empty mapping
@@ -441,10 +455,10 @@ func GenBackupCycle(r *Rng, o EngineGenOpts, hist map[string]int) []string {
 	if r.Chance(1, 2) {
 		add("put %s @%d:%d", key(0, 0), vlen, r.Intn(99999))
 	}
-	add("backup bk")
+	add("backup %s", bk)
 	add("dump")
 	add("close")
-	add("dir bk")
+	add("dir %s", bk)
 	add("open %s", genCfg(r, o, hist))
 	add("dump")
 	add("list")
@@ -472,7 +486,14 @@ func GenCrashScript(r *Rng, kind string, hist map[string]int) []string {
 		x := r.Intn(10)
 		switch {
 		case x < 6:
-			add("put %s %s", engKeys[r.Intn(5)], genEngVal(r, o, c, hist))
+			if r.Chance(1, 5) {
+				// a record whose encoding ends in zero bytes (the tail of a file is told from padding by
+				// the chunk headers, never by the byte values)
+				add("put %s %s", engKeys[r.Intn(5)], r.PickS("00", "07000000", "ab0000", "610000000000000000", "0000"))
+				hist["crash_val_trailing_zeros"]++
+			} else {
+				add("put %s %s", engKeys[r.Intn(5)], genEngVal(r, o, c, hist))
+			}
 		case x < 8:
 			add("del %s", engKeys[r.Intn(5)])
 		case x < 9:
